@@ -102,6 +102,18 @@ def main():
     if c.replay_path:
         rp = json.load(open(c.replay_path))
         h, shm = rp.get("history", []), rp.get("shm", H.DEFAULT_SHM)
+        if h and h[0].startswith("inew"):
+            # a cache_interface history: real service (harness c07i), model, independent judge
+            ibin = c.harness("c07i")
+            rc, o, err = c.run_lines(ibin, h) if ibin else (1, [], "harness c07i does not build")
+            rc2, mo, err2 = c.run_lines(model, h)
+            for i, l in enumerate(h):
+                print("case :", l); print("impl :", o[i] if i < len(o) else None); print("model:", mo[i] if i < len(mo) else None)
+            bad = H.iface_judge(h, o)
+            print("judge:", bad or "ok", err[-500:] if rc else "")
+            if bad or rc != 0:
+                c.violation("replayed cache_interface history fails: " + (bad[0][1] if bad else "harness died"), {"history": h, "impl_outputs": o})
+            c.finish()
         k, verdict, raw, mout, err = R.judge_history(h, shm)
         for i, l in enumerate(h):
             print("case :", l); print("impl :", raw[i] if i < len(raw) else None); print("model:", mout[i] if i < len(mout) else None)
